@@ -1,5 +1,6 @@
 (* C11 — tree-form writes hit exactly the addressed slot and nothing else. *)
 From Anytype Require Import Base FloatBits Value GoInt Heap TreeFormProofs TreeFormFacts.
+From Anytype Require CloneProofs. From Anytype Require Import Footprint.
 Local Open Scope Z_scope.
 
 (* [set_tf]/[unset_tf] transcribe SetTF/UnsetTF of both containers branch by branch (pad with nil, reuse an intermediate of the
@@ -93,6 +94,23 @@ Example C11_prefix_would_panic :
   match alookup (B"a") [(B"a", HInt 1)] with Some (HL _) => False | Some _ => snd (set_tf 20 h (HO 0) (B".a#0") (HInt 5)) = false | None => False end.
 Proof. vm_compute. reflexivity. Qed.
 
+
+(* footprint, for ARBITRARY path strings (well-formed or not), any fuel and whether or not the call panics half-way:
+   SetTF only appends cells and rewrites cells reachable from the receiver; UnsetTF allocates nothing and likewise *)
+Theorem C11_set_footprint : forall fuel h v tf x h' p, set_tf fuel h v tf x = (h', p) ->
+  (length h <= length h')%nat /\
+  forall id, (id < length h)%nat -> ~ CloneProofs.Reach h v id -> nth_error h' id = nth_error h id.
+Proof. exact set_tf_footprint. Qed.
+Theorem C11_unset_footprint : forall fuel h v tf h' p, unset_tf fuel h v tf = (h', p) ->
+  length h' = length h /\ forall id, ~ CloneProofs.Reach h v id -> nth_error h' id = nth_error h id.
+Proof. exact unset_tf_footprint. Qed.
+(* hence a tree that shares no container with the receiver reads the same after any SetTF / UnsetTF step of a program *)
+Theorem C11_tf_mutator_independent : forall s o r vr w f, tf_mutator o = Some r -> nth_error (st_env s) r = Some vr ->
+  (forall id, CloneProofs.Reach (st_heap s) w id -> ~ CloneProofs.Reach (st_heap s) vr id) ->
+  (forall id, CloneProofs.Reach (st_heap s) w id -> (id < length (st_heap s))%nat) ->
+  reify f (st_heap (fst (step_core s o))) w = reify f (st_heap s) w.
+Proof. exact tf_mutator_independent. Qed.
+
 Print Assumptions C11_set_read_back.
 Print Assumptions C11_set_read_back_no_revisit.
 Print Assumptions C11_set_never_panics.
@@ -103,3 +121,6 @@ Print Assumptions C11_unset.
 Print Assumptions C11_unset_frame.
 Print Assumptions C11_unset_absent_key.
 Print Assumptions C11_unset_index_out_of_range.
+Print Assumptions C11_set_footprint.
+Print Assumptions C11_unset_footprint.
+Print Assumptions C11_tf_mutator_independent.
